@@ -38,9 +38,10 @@ def _inproc_setup():
 def _reexec_if_needed():
     """Replay must not depend on the caller's hash seed: re-exec with PYTHONHASHSEED=0."""
     want = os.environ.get('PYDLSIM_HASHSEED', '0')
-    if os.environ.get('PYTHONHASHSEED') != want:
+    if os.environ.get('PYTHONHASHSEED') != want or os.environ.get('PYTHONUTF8') != '1':
         env = dict(os.environ)
         env['PYTHONHASHSEED'] = want
+        env['PYTHONUTF8'] = '1'
         env.setdefault('MPLCONFIGDIR', os.path.join(tempfile.gettempdir(), 'pydlsim-mpl'))
         here = os.path.dirname(os.path.dirname(os.path.abspath(__file__)))
         pp = [here]
